@@ -84,7 +84,7 @@ def run_one(prog, prefix, opts, oracle, summ, want_sample=False):
                              kill_when=opts.get("kill_when"), starve=opts.get("starve"), p_scope=opts.get("p_scope"),
                              t_scope=opts.get("t_scope"), t_when=opts.get("t_when"),
                              p_when=opts.get("p_when"), t_cur=opts.get("t_cur"),
-                             zero_when=opts.get("zero_when"), lines=opts.get("lines"),
+                             zero_when=opts.get("zero_when"), lines=opts.get("lines"), p_cur=opts.get("p_cur"),
                              horizon=opts.get("horizon", 50_000))
     summ.executions += 1
     summ.decisions += len(rec.alts_log)
